@@ -169,6 +169,7 @@ def main(argv=None):
 
     findings = load_findings()
     known_seen = collections.OrderedDict()
+    known_replays = {}
     new_viols = []
     witness_status = {}
     for f, reproduced in replay_witnesses(prop, findings):
@@ -179,6 +180,8 @@ def main(argv=None):
         f = match_finding(findings, v)
         if f is not None:
             known_seen.setdefault(f['key'], (f, v))
+            if v.get('replay'):
+                known_replays.setdefault(f['key'], v['replay'])
         else:
             new_viols.append(v)
 
@@ -205,6 +208,7 @@ def main(argv=None):
         'cases_not_run_time_cap': not_run,
         'known_findings_seen': list(known_seen.keys()),
         'known_finding_witness_reproduced': witness_status,
+        'known_finding_instances_this_run': known_replays,
         'worker_errors': worker_errors,
         'verdict': verdict,
         'jobs': jobs,
